@@ -521,3 +521,63 @@ pub fn cast_ok_mod(x: u64) -> u16 {
 pub fn cast_ok_guarded(x: usize) -> Option<u8> {
     if x < 200 { Some(x as u8) } else { None }
 }
+
+// ------------------------------------------------------------------ loops that must run to exhaustion
+pub struct Sink {
+    pub sent: Vec<u32>,
+}
+
+impl Sink {
+    pub fn send(&mut self, x: u32) {
+        self.sent.push(x);
+    }
+}
+
+/// every element is handed to the sink: fine
+pub fn loop_ok_all(s: &mut Sink, xs: &[Option<u32>]) {
+    for x in xs {
+        let Some(v) = x else {
+            continue;
+        };
+        s.send(*v);
+    }
+}
+
+/// leaves at the first element that has nothing to send: the rest is never visited
+pub fn loop_bad_early_return(s: &mut Sink, xs: &[Option<u32>]) {
+    for x in xs {
+        let Some(v) = x else {
+            return;
+        };
+        s.send(*v);
+    }
+}
+
+/// a pure search loop may return early
+pub fn loop_ok_search(xs: &[u32], y: u32) -> bool {
+    for x in xs {
+        if *x == y {
+            return true;
+        }
+    }
+    false
+}
+
+/// `loop { if done { break } .. }`: the single exit is the loop condition
+pub fn loop_ok_single_exit(s: &mut Sink, mut n: u32) {
+    loop {
+        if n == 0 {
+            break;
+        }
+        s.send(n);
+        n -= 1;
+    }
+}
+
+/// a buffer filled in place: its contents come from `a` and `b`
+pub fn inplace_fill(a: u64, b: u64) -> [u8; 16] {
+    let mut buf = [0u8; 16];
+    buf[..8].copy_from_slice(&a.to_be_bytes());
+    buf[8..].copy_from_slice(&b.to_be_bytes());
+    buf
+}
